@@ -231,8 +231,8 @@ LOAD = Call(r"(?<![\w.>])state_\.load", "atomic_load(&self->state_)", "+")
 CAS = Call(r"(?<![\w.>])state_\.compare_exchange_weak", "atomic_cas_weak(&self->state_, &{0}, {1})", 1)
 FETCH_SELF = Call(r"(?<![\w.>])state_\.fetch_(add|sub)", "atomic_fetch_{h1}(&self->state_, {0})", 1)   # which one is semantics: captured
 FETCH_P = Call(r"\b(\w+)->state_\.fetch_(add|sub)", "atomic_fetch_{h2}(&{h1}->state_, {0})", 1)
-EXEC = Call(r"\b(\w+)->execute", "cb_execute({h1})", "+")
-FLAG = Call(r"\b(\w+)->callback_finished_executing_\.store", "flag_store({h1}, {0})", "+")
+EXEC = Call(r"\b(\w+)->execute", "cb_execute({h1})", None)
+FLAG = Call(r"\b(\w+)->callback_finished_executing_\.store", "flag_store({h1}, {0})", None)
 
 CONSTS = Lift(HPP, r"static constexpr std::uint64_t token_ref_increment", fragment_end=r"\blocked_flag\s*=[^;]*;",
               rules=[StripComments(), ConstDefs()])
@@ -349,9 +349,11 @@ IPTR_RULES = [
     Sub(r"VX_MEMDTOR\((\w+)\);", r"iptr_dtor(&self->\1);", None),
     Sub(r"(?<![\w.>])(\w+_) = std::move\((\w+)\.(\w+_)\);", r"iptr_assign_move(&self->\1, &\2->\3);", None),
     Sub(r"(?<![\w.>])(\w+_) = (\w+)\.(\w+_);", r"iptr_assign_copy(&self->\1, &\2->\3);", None),
+    Sub(r"\b(\w+)\.(\w+_) = (\w+_);", r"iptr_assign_copy(&\1->\2, &self->\3);", None),
     Sub(r"std::swap\((\w+_), (\w+)\.(\w+_)\);", r"iptr_std_swap(&self->\1, &\2->\3);", None),
     Sub(r"(?<![\w.>])(\w+_) (==|!=) (\w+)\.(\w+_)\b", r"(self->\1.px \2 \3->\4.px)", None),
     Sub(r"\(\s*(!?)(\w+_)\s*\)", r"(\1iptr_bool(&self->\2))", None),
+    Sub(r"\(\s*(!?)(\w+)\.(\w+_)\s*\)", r"(\1iptr_bool(&\2->\3))", None),
     Call(r"(?<![\w.>])(\w+_)->(\w+)", "{h2}(iptr_arrow(&self->{h1}))", None),
     Call(r"\b(\w+)\.(\w+_)->(\w+)", "{h3}(iptr_arrow(&{h1}->{h2}))", None),
     Sub(r"return \*this;", "return self;", None),
@@ -405,11 +407,12 @@ UNITS += [
 
 # ---------------------------------------------------------------------------------------------------------------
 # unit 4: callback list
-REFPARAM = [Sub(r"&callbacks\b", "VX_ADDR_OF_REF", None), Sub(r"\bcallbacks\b", "(*callbacks)", "+"),
+REFPARAM = [Sub(r"&callbacks\b", "VX_ADDR_OF_REF", None), Sub(r"\bcallbacks\b", "(*callbacks)", None),
             Sub(r"\bVX_ADDR_OF_REF\b", "callbacks", None)]   # reference parameter T*& -> T**
 ADD_THIS = Lift(CPP, r"void stop_callback_base::add_this_callback\(stop_callback_base\*& callbacks\)",
-                rules=REFPARAM + [Members(["next_", "prev_"]), Sub(r"\bthis\b", "self", 1)])
-REMOVE_THIS = Lift(CPP, r"bool stop_callback_base::remove_this_callback\(\)", rules=[Members(["next_", "prev_"])])
+                rules=REFPARAM + [Members(["next_", "prev_"], optional=["next_", "prev_"]), Sub(r"\bthis\b", "self", None)])
+REMOVE_THIS = Lift(CPP, r"bool stop_callback_base::remove_this_callback\(\)",
+                   rules=[Members(["next_", "prev_"], optional=["next_", "prev_"])])
 FN_ADD_THIS = CPP + ": detail::stop_callback_base::add_this_callback"
 FN_REMOVE_THIS = CPP + ": detail::stop_callback_base::remove_this_callback"
 
@@ -478,6 +481,24 @@ class OutlineLoop(Rule):
         return text[:a] + "{ " + self.call + " }" + text[b + 1:]
 
 
+class LiftOptLoops(Lift):
+    """like Lift, but loop contracts whose loop does not exist (any more) are dropped instead of being an extraction
+    failure: a removed wait loop must show up as a failed obligation"""
+
+    def run(self):
+        loops, self.loops = self.loops, {}
+        try:
+            r = Lift.run(self)
+        finally:
+            self.loops = loops
+        keep = {k: v for k, v in loops.items() if not isinstance(k, int) or k <= r["nloops"]}
+        self.loops = keep
+        try:
+            return Lift.run(self)
+        finally:
+            self.loops = loops
+
+
 class ContractsFrom(Lift):
     """splice the signature + contract clauses of the named //@FUNC functions of another template of this spec as
     declarations (so that a caller unit uses verbatim the contract that the callee's own unit proves)"""
@@ -534,7 +555,7 @@ CB_COMMON = dict(WORD_LIFTS, callee_contracts=ContractsFrom("word.c", ["lock", "
                  ug_ctor=MemberLift(UG, "unlock_guard", r"explicit unlock_guard\(Mutex& m\)", "ctor", rules=SCOPED_RULES,
                                     expect_members=["m_"], rename_param=False),
                  ug_dtor=MemberLift(UG, "unlock_guard", r"~unlock_guard\(\)", "dtor", rules=SCOPED_RULES, expect_members=["m_"]))
-GET_SELF = Call(r"\bpika::threads::detail::get_self_id", "get_self_id()", 1)
+GET_SELF = Call(r"\bpika::threads::detail::get_self_id", "get_self_id()", None)
 
 
 def lambda_loop(args, env):
@@ -560,7 +581,7 @@ STEP_RULES = [
 SLARS_RULES = [
     Guard(r"scoped_lock_and_request_stop (\w+)\(\*this\);",
           r"struct scoped_lock \1; scoped_lock_and_request_stop_ctor(&\1, self);", r"scoped_lock_and_request_stop_dtor(&\1);", 1),
-    Sub(r"\(!l\)", "(!scoped_lock_and_request_stop_bool(&l))", 1),
+    Sub(r"\(!l\)", "(!scoped_lock_and_request_stop_bool(&l))", None),
     LOAD, GET_SELF,
 ]
 
@@ -581,26 +602,28 @@ __CPROVER_loop_invariant(g_win_old == __CPROVER_loop_entry(g_win_old) && g_win_n
 
 UNITS += [
     Unit("cb.add_callback", "cb.c", defines=["U_ADD_CALLBACK"], enforce="add_callback",
-         replace=["unlock", "lock_if_not_stopped"],
+         replace=["lock", "unlock", "lock_if_not_stopped"],
          lifts=dict(CB_COMMON,
                     body=Lift(CPP, r"bool stop_state::add_callback\(stop_callback_base\* cb\)", rules=[
                         Guard(r"scoped_lock_if_not_stopped (\w+)\(\*this, (\w+)\);",
                               r"struct scoped_lock \1; scoped_lock_if_not_stopped_ctor(&\1, self, \2);", r"scoped_lock_if_not_stopped_dtor(&\1);", 1),
-                        Sub(r"\(!l\)", "(!scoped_lock_if_not_stopped_bool(&l))", 1),
-                        Call(r"\b(\w+)->add_this_callback", "add_this_callback({h1}, &{0})", 1),
-                        Members(["callbacks_"])])),
+                        Sub(r"\(!l\)", "(!scoped_lock_if_not_stopped_bool(&l))", None),
+                        Call(r"\b(\w+)->add_this_callback", "add_this_callback({h1}, &{0})", None),
+                        EXEC, FLAG,
+                        Members(["callbacks_"], optional=["callbacks_"])])),
          funcs=[CPP + ": detail::stop_state::add_callback, scoped_lock_if_not_stopped", FN_ADD_THIS], min_obligations=60),
 ] + [
     Unit("cb.remove_callback" + sfx, "cb.c", defines=["U_REMOVE_CALLBACK"] + kf, enforce="remove_callback", replace=["lock", "unlock"],
          doc=doc, tier=tier,
-         lifts=dict(CB_COMMON, body=Lift(CPP, r"void stop_state::remove_callback\(stop_callback_base\* cb\)", rules=[
-             Guard(r"std::lock_guard<stop_state> (\w+)\(\*this\);", "mon_lock(self);", "mon_unlock(self);", 1),
-             Call(r"\b(\w+)->remove_this_callback", "remove_this_callback({h1})", 1),
-             GET_SELF, Members(["signalling_thread_"]),
+         lifts=dict(CB_COMMON, body=LiftOptLoops(CPP, r"void stop_state::remove_callback\(stop_callback_base\* cb\)", rules=[
+             Guard(r"std::lock_guard<stop_state> (\w+)\(\*this\);", "mon_lock(self);", "mon_unlock(self);", None),
+             Sub(r"\bpika::threads::detail::invalid_thread_id\b", "0", None),
+             Call(r"\b(\w+)->remove_this_callback", "remove_this_callback({h1})", None),
+             GET_SELF, Members(["signalling_thread_"], optional=["signalling_thread_"]), EXEC, FLAG,
              Call(r"(?<![\w.>])state_\.load", "atomic_load(&self->state_)", None),
-             Call(r"\bpika::util::yield_while", lambda_loop, 1),
-             Call(r"\b(\w+)->callback_finished_executing_\.load", "flag_load({h1})", 1)],
-             loops={1: LOOP_SPIN, "count": 1})),
+             Call(r"\bpika::util::yield_while", lambda_loop, None),
+             Call(r"\b(\w+)->callback_finished_executing_\.load", "flag_load({h1})", None)],
+             loops={1: LOOP_SPIN})),
          funcs=[CPP + ": detail::stop_state::remove_callback", FN_REMOVE_THIS], min_obligations=60)
     for (sfx, kf, doc, tier) in [
         ("", [], "full input domain: any thread kind, any history of the callback", "quick"),
@@ -624,7 +647,7 @@ UNITS += [
          lifts=dict(CB_COMMON, body=RS_BODY(LOOP_DRAIN, True), step=LoopBodyLift(CPP, RS, 1, rules=STEP_RULES)),
          funcs=[CPP + ": detail::stop_state::request_stop (loop body)", UG + ": detail::unlock_guard"], min_obligations=100),
     Unit("cb.request_stop", "cb.c", defines=["U_REQUEST_STOP"], enforce="request_stop",
-         replace=["unlock", "lock_and_request_stop", "drain_step"],
+         replace=["lock", "unlock", "lock_and_request_stop", "drain_step"],
          doc="whole function; the loop body is outlined into drain_step, whose contract cb.request_stop.step proves",
          lifts=dict(CB_COMMON, body=RS_BODY(LOOP_DRAIN, True), step=LoopBodyLift(CPP, RS, 1, rules=STEP_RULES)),
          funcs=[CPP + ": detail::stop_state::request_stop, scoped_lock_and_request_stop", UG + ": detail::unlock_guard"],
